@@ -24,6 +24,7 @@ CLAUSE = CLAUSE + (" A queue buffer is published to the clients only under `res 
 CLAUSE = CLAUSE + (" In vbi_proxy_queue_allocate a count taken by walking the free list is reset right after the list is released "
                    "and incremented right after a buffer is added; the byte offsets of the message I/O state (writeOff, readOff) are "
                    "added to byte pointers only.")
+CLAUSE = CLAUSE + (" The assertion on a freshly captured frame admits line_count == max_lines (the buffer's capacity).")
 NOT_DECIDED = ("exactly-once / in-order delivery, timing, device open/close sequencing, that a stalled client loses only its own "
                "frames (schedule-dependent behaviour); the main loop's unlocked *reads* of its clients' cursors and queued frames "
                "(vbi_proxyd_send_sliced, _handle_client_sockets, _get_fd_set) are a formal data race with the acquisition thread's "
@@ -190,6 +191,7 @@ def run(ctx, run):
     _accepted_socket_nonblocking(ctx, run)
     _count_follows_list(ctx, run)
     _byte_offsets_on_byte_pointers(ctx, run)
+    _full_frame_admitted(ctx, run)
     from .. import sweep
     sweep.run(ctx, run, ["src/proxy-client.c"], {}, 10)
 
@@ -669,3 +671,35 @@ def _byte_offsets_on_byte_pointers(ctx, run):
                                   "message that could not be sent in one piece continues from the wrong address"
                                   % (ex.pretty(f, i)[:60], o["member"], t, base), ex.loc(f, i))
     run.floor("byte offsets of the message state used in pointer arithmetic", n, 2)
+
+
+def _full_frame_admitted(ctx, run):
+    """RF-ASSERT: a frame buffer has room for max_lines sliced lines and the capture device may
+    deliver that many (every line of the device range decoded - always so for the one-line range
+    of a WSS or VPS only client).  The daemon's assertion on a freshly read frame therefore fails
+    only for line_count > max_lines; a strict `<` aborts the daemon, for all clients, on a
+    perfectly good frame."""
+    P = ctx.prog
+    f = P.need("vbi_proxyd_forward_data", UNIT)
+    run.touch(f)
+    n = 0
+    for bid, i in flow.all_events(f):
+        e = f.exprs[i]
+        if e["k"] != "call" or e.get("callee") != "__assert_fail":
+            continue
+        for a in atoms.atoms_at(f, i):
+            if a.R is None or a.R.const is not None:
+                continue
+            lc = a.L.has("PROXY_QUEUE.line_count") or a.L.has("PROXY_QUEUE_s.line_count") or "line_count" in a.L.text
+            ml = "max_lines" in a.R.text
+            if not (lc and ml):
+                continue
+            n += 1
+            key = "RF-ASSERT:vbi_proxyd_forward_data:full-frame"
+            if a.rel == ">":
+                run.holds("RF-ASSERT", key, "the assertion fails only for line_count > max_lines", ex.loc(f, i))
+            else:
+                run.violation("RF-ASSERT", key, "the assertion on a captured frame fails already for line_count %s max_lines: a frame "
+                              "that fills the device range (all lines decoded; the single line of a WSS-only client) aborts the "
+                              "daemon and disconnects every client" % a.rel, ex.loc(f, i))
+    run.floor("capacity assertions on a captured frame", n, 1)
